@@ -239,6 +239,11 @@ func (its *jsonPrimitive) getTargetFromPatch(path string) (jsonType, string, err
 	if len(paths) < 1 {
 		return nil, "", errors.DatatypeInvalidPatch.New(its.common.L(), "incorrect path: %v", path)
 	}
+	// the path is a JSON pointer (RFC 6901): "~1" stands for "/" and "~0" for "~" inside a token
+	unescape := strings.NewReplacer("~1", "/", "~0", "~")
+	for i := range paths {
+		paths[i] = unescape.Replace(paths[i])
+	}
 	key := paths[len(paths)-1]
 	paths = paths[1 : len(paths)-1]
 
